@@ -13,12 +13,14 @@
    known types, distinct cleaned names (any spelling), every entry at top level or below an entry that precedes it,
    single-chunk files. The proof is a simulation between the two-pass interpreter (mem_build) and the streaming one
    (db_build), Proofs/TreeAgree.v.
+   C05_stores_agree_implicit widens this to TOCs with implicit parent directories, C05_stores_agree_rooted adds an explicit
+   root entry (Proofs/TreeAgree2.v).
    LEFT OPEN (checked on every run by the correspondence check and the store-vs-store oracle only): tree equality for
-   conforming TOCs with implicit parent directories, repeated directory entries, an explicit root entry, hardlinks
+   conforming TOCs with repeated directory entries, hardlinks
    (backward, chains) and multi-chunk files inside the tree walk (their chunk tables are covered per file by
    C05_chunk_tables_agree / C05_chunk_lookup_agree). *)
 From Coq Require Import List ZArith Bool Lia.
-From SV Require Import Model.TreeStores Proofs.TreeStores Proofs.TreeAgree.
+From SV Require Import Model.TreeStores Proofs.TreeStores Proofs.TreeAgree Proofs.TreeAgree2.
 Import ListNotations.
 Open Scope Z_scope.
 
@@ -88,6 +90,26 @@ Theorem C05_stores_agree_partial : forall toc probes,
   view_mem toc probes = view_db toc probes /\ view_mem toc probes <> None.
 Proof. exact stores_agree_simple. Qed.
 Print Assumptions C05_stores_agree_partial.
+
+(* Tree agreement with IMPLICIT PARENT DIRECTORIES (explicit boolean class predicate, Model.implicit_tocb): every entry is
+   entry_okb (as above), the cleaned names are pairwise distinct, and an entry whose name is an ancestor of another entry's
+   name precedes it; parents need NOT have entries of their own (any depth of implicit directories, created in the same
+   order by both stores, the memory store's root lazily). The simulation relation carries an abstract, growing map from
+   memory-store node indices to db node ids (db ids are no longer entry index + 1). *)
+Theorem C05_stores_agree_implicit : forall toc probes,
+  implicit_tocb toc = true -> Forall (fun p => 0 <= p) probes ->
+  view_mem toc probes = view_db toc probes /\ view_mem toc probes <> None.
+Proof. intros toc probes H Hp. exact (stores_agree_tree toc probes (implicit_tocb_ok toc H) Hp). Qed.
+Print Assumptions C05_stores_agree_implicit.
+
+(* ... and with an EXPLICIT ROOT ENTRY ("./", "/", ".", "a/.."; Model.rooted_tocb): the first entry may be a directory whose
+   cleaned name is empty; it overwrites the attributes of the db store's root node and is the memory store's root from
+   the start; both report link count 2 + subdirectories for it (fix-7) and no child "." (fix-3). *)
+Theorem C05_stores_agree_rooted : forall toc probes,
+  rooted_tocb toc = true -> Forall (fun p => 0 <= p) probes ->
+  view_mem toc probes = view_db toc probes /\ view_mem toc probes <> None.
+Proof. intros toc probes H Hp. exact (stores_agree_tree toc probes (rooted_tocb_ok toc H) Hp). Qed.
+Print Assumptions C05_stores_agree_rooted.
 
 (* Layers in one database: whatever is opened, closed or queried on OTHER layers (any history, any candidate ids the
    id generator produces), a live layer shows exactly the same filesystem afterwards. *)
@@ -187,6 +209,24 @@ Proof.
       * destruct i; discriminate.
   - eexists. split; [vm_compute; reflexivity|reflexivity].
 Qed.
+
+(* implicit_tocb holds of a TOC whose files sit three levels deep below directories that have no entries, next to an
+   explicit directory; both stores show 8 nodes *)
+Example C05_implicit_toc_nonvacuous :
+  let f1 := E [10; 11; 12; 13] TReg 9 None 0 [] 420 0 0 0 0 [] 100 0 0 0 7 0 in
+  let d := E [1; 20; 0] TDir 0 (Some 5) 0 [] 493 3 4 0 0 [(1, 0)] 0 0 0 0 0 0 in
+  let f2 := E [20; 21; 22] TSymlink 0 None 6 [] 511 0 0 0 0 [] 0 0 0 0 0 0 in
+  implicit_tocb [f1; d; f2] = true /\ (exists v, view_db [f1; d; f2] [0; 9] = Some v /\ length v = 8%nat).
+Proof. split; [vm_compute; reflexivity|]. eexists. split; [vm_compute; reflexivity|reflexivity]. Qed.
+
+(* rooted_tocb holds of a TOC starting with "./" (own uid, mode, xattr) followed by files below implicit directories *)
+Example C05_rooted_toc_nonvacuous :
+  let r := E [1; 0] TDir 0 (Some 5) 0 [] 448 7 7 0 0 [(3, 4)] 0 0 0 0 0 0 in
+  let f1 := E [1; 10; 11; 12] TReg 9 None 0 [] 420 0 0 0 0 [] 100 0 0 9 7 8 in
+  let f2 := E [10; 13] TFifo 0 None 0 [] 420 0 0 0 0 [] 0 0 0 0 0 0 in
+  rooted_tocb [r; f1; f2] = true /\ implicit_tocb [r; f1; f2] = false
+  /\ (exists v, view_mem [r; f1; f2] [0] = Some v /\ length v = 5%nat /\ option_map a_uid (root_attr_of (Some v)) = Some 7).
+Proof. split; [vm_compute; reflexivity|]. split; [vm_compute; reflexivity|]. eexists. split; [vm_compute; reflexivity|split; reflexivity]. Qed.
 
 Example C05_bytes_nonvacuous :
   encode_int 300 = [216; 4] /\ encode_int (-1) = [1] /\ decode_int [216; 4] = Some 300 /\ clean [1; 10; 2; 0; 11; 12; 2] = [11].
